@@ -25,6 +25,22 @@ def default_literal(t):
     return {'Int32': '1', 'String': '"x"', 'Boolean': 'true'}.get(base, '1')
 
 
+DOC_TEXT = 'Doc %s.'
+
+
+def member_extras(m, indent):
+    out = []
+    if m.get('ann'):
+        out.append(' ' * indent + '@' + m['ann'])
+    if m.get('doc'):
+        out.append(' ' * indent + '"%s"' % (DOC_TEXT % m['doc']))
+    return out
+
+
+def uses_ann(d):
+    return [m['ann'] for m in _seq(d.get('fields')) + _seq(d.get('tags')) if isinstance(m, dict) and m.get('ann')]
+
+
 def render_def(d):
     k = d['k']
     out = []
@@ -46,6 +62,7 @@ def render_def(d):
             if f['dflt']:
                 line += ' = ' + default_literal(f['t'])
             out.append(line)
+            out += member_extras(f, 8)
         for e in _seq(d.get('examples')):
             out.append('    example %s' % e['label'])
             for a in _seq(e['assigns']):
@@ -57,6 +74,7 @@ def render_def(d):
         out.append(hdr)
         for t in d['tags']:
             out.append(('    %s %s' % (t['n'], render_ref(t['t']))).rstrip())
+            out += member_extras(t, 8)
     elif k == 'route':
         name = d['n'] + (':%d' % d['ver'] if d['ver'] != 1 else '')
         line = 'route %s(%s, %s, %s)' % (name, render_ref(d['arg']), render_ref(d['res']), render_ref(d['err']))
@@ -89,7 +107,15 @@ def render_model(files):
     for f in files:
         count[f['ns']] = count.get(f['ns'], 0) + 1
         name = '%s_%d.stone' % (f['ns'], count[f['ns']])
-        text = 'namespace %s\n\n' % f['ns'] + '\n'.join(render_def(d) for d in _seq(f['defs']))
+        text = 'namespace %s\n\n' % f['ns']
+        if count[f['ns']] == 1:
+            # the annotations the members of this namespace use are defined once, in its first file
+            anns = sorted({a for g in files if g['ns'] == f['ns'] for d in _seq(g['defs']) for a in uses_ann(d)})
+            for a in anns:
+                text += 'annotation %s = %s()\n' % (a, {'Dep': 'Deprecated', 'Prev': 'Preview'}[a])
+            if anns:
+                text += '\n'
+        text += '\n'.join(render_def(d) for d in _seq(f['defs']))
         specs.append((name, text))
     return specs
 
@@ -114,6 +140,17 @@ def project_type(dt, cur_ns):
     return {'k': 'tref', 'ns': '', 'n': dt.name, 'nullable': nullable, 'arg': arg}
 
 
+def project_doc(raw):
+    if not raw:
+        return ''
+    m = __import__('re').match(r'^Doc (\w+)\.$', raw.strip())
+    return m.group(1) if m else 'unexpected:' + raw
+
+
+def project_ann(f):
+    return 'Dep' if getattr(f, 'deprecated', False) else 'Prev' if getattr(f, 'preview', False) else ''
+
+
 def project_api(api):
     from stone.ir import data_types as T
     out = []
@@ -133,7 +170,8 @@ def project_api(api):
                     chain.append(c)
                     c = c.parent_type
                 types.append({'k': 'struct', 'n': dt.name, 'parent': parent,
-                              'fields': [{'n': f.name, 't': project_type(f.data_type, ns.name), 'dflt': f.has_default}
+                              'fields': [{'n': f.name, 't': project_type(f.data_type, ns.name), 'dflt': f.has_default,
+                                          'doc': project_doc(f.raw_doc), 'ann': project_ann(f)}
                                          for f in dt.fields],
                               'all_fields': [f.name for c in chain[::-1] for f in c.fields],
                               'subs': subs, 'hassubs': dt.has_enumerated_subtypes(),
@@ -145,6 +183,7 @@ def project_api(api):
                               'tags': [f.name for f in own],
                               'tagtypes': [({'k': 'voidtag'} if isinstance(f.data_type, T.Void)
                                             else project_type(f.data_type, ns.name)) for f in own if not f.catch_all],
+                              'tagmeta': [{'doc': project_doc(f.raw_doc), 'ann': project_ann(f)} for f in own if not f.catch_all],
                               'all_tags': [f.name for f in dt.all_fields if not f.catch_all],
                               'examples': sorted(dt.get_examples().keys())})
         for a in ns.aliases:
@@ -215,7 +254,7 @@ def norm_denote(den):
             d.pop('imports', None)
             if 'parent' in d:
                 d['parent'] = list(d['parent']) if d['parent'] else []
-            for key in ('fields', 'subs', 'tags', 'tagtypes', 'all_fields', 'all_tags', 'by', 'examples', 'patch_groups'):
+            for key in ('fields', 'subs', 'tags', 'tagtypes', 'tagmeta', 'all_fields', 'all_tags', 'by', 'examples', 'patch_groups'):
                 if key in d and not isinstance(d[key], list):
                     d[key] = []
             if 'examples' in d:
